@@ -10,6 +10,7 @@ import Mathlib.Algebra.Order.BigOperators.Group.Finset
 import Mathlib.Data.Real.Basic
 import Mathlib.Tactic.Ring
 import Mathlib.Tactic.Linarith
+import Mathlib.Data.Finset.Card
 
 open Finset
 
@@ -91,5 +92,44 @@ theorem sum_enumeration (L : List ℕ) (f : ℕ → ℝ) (h : L.Nodup) :
 /-- A10 cardinality is the sum of ones (len of an enumeration). -/
 theorem card_eq_sum_ones (S : Finset ℕ) : (S.card : ℝ) = ∑ _x ∈ S, (1 : ℝ) := by
   simp
+
+/-- card_insert: the SMT axiom `scard(Store(m,c,true)) = scard(m) + (if m[c] then 0 else 1)`. -/
+theorem card_insert (S : Finset ℕ) (c : ℕ) :
+    (insert c S).card = S.card + (if c ∈ S then 0 else 1) := by
+  by_cases h : c ∈ S
+  · simp [h]
+  · simp [h]
+
+/-- card_erase: the SMT axiom `scard(Store(m,c,false)) = scard(m) - (if m[c] then 1 else 0)` (over ℤ). -/
+theorem card_erase (S : Finset ℕ) (c : ℕ) :
+    ((S.erase c).card : ℤ) = (S.card : ℤ) - (if c ∈ S then 1 else 0) := by
+  by_cases h : c ∈ S
+  · rw [Finset.card_erase_of_mem h, if_pos h]
+    have : 1 ≤ S.card := Finset.card_pos.mpr ⟨c, h⟩
+    omega
+  · rw [Finset.erase_eq_of_notMem h, if_neg h]; simp
+
+/-- card_empty. -/
+theorem card_empty : (∅ : Finset ℕ).card = 0 := Finset.card_empty
+
+/-- card_nonneg (cardinalities are natural numbers). -/
+theorem card_nonneg (S : Finset ℕ) : (0 : ℤ) ≤ (S.card : ℤ) := Int.natCast_nonneg _
+
+/-- card_zero: a finite set has no members iff its cardinality is 0. -/
+theorem card_zero (S : Finset ℕ) : S.card = 0 ↔ ∀ x, x ∉ S := by
+  rw [Finset.card_eq_zero, Finset.eq_empty_iff_forall_notMem]
+
+/-- card_union of disjoint sets. -/
+theorem card_union (S T : Finset ℕ) (h : Disjoint S T) : (S ∪ T).card = S.card + T.card :=
+  Finset.card_union_of_disjoint h
+
+/-- ssum_filter_le: over non-negative values a subset sums to no more than the whole. -/
+theorem ssum_filter_le (S T : Finset ℕ) (f : ℕ → ℝ) (hsub : S ⊆ T) (h : ∀ x ∈ T, 0 ≤ f x) :
+    ∑ x ∈ S, f x ≤ ∑ x ∈ T, f x :=
+  Finset.sum_le_sum_of_subset_of_nonneg hsub (fun x hx _ => h x hx)
+
+/-- enumeration_length: an enumeration (duplicate free list of exactly the members) has as many items as the set has members. -/
+theorem enumeration_length (L : List ℕ) (h : L.Nodup) : L.length = L.toFinset.card :=
+  (List.toFinset_card_of_nodup h).symm
 
 end SetSum
